@@ -72,3 +72,24 @@ Example ex_hybrid_computed :
   load_bytes false (render_hybrid (d_objs ex_doc) ex_hylayout) =
   Loaded [((1, 0)%N, VObj (OName (B "Catalog"))); ((2, 0)%N, VObj (OStream [(B "Length", OInt 3)] (B "abc")))] (1, 0)%N.
 Proof. vm_compute. reflexivity. Qed.
+
+(* ---------- representation independence: ONE document written in the three in-file representations (classic
+   table, cross-reference stream, hybrid), each with any legal layout, built in either profile, loads to the same root
+   and the same bindings ---------- *)
+Theorem load_bytes_representation_independent rel1 rel2 rel3 d l X H :
+  wf_doc d -> wf_layout d l -> wf_xlayout d X -> wf_hylayout d H ->
+  exists c1 c2 c3,
+    load_bytes rel1 (render_classic (d_objs d) l) = Loaded c1 (d_root d) /\
+    load_bytes rel2 (render_xrefstm (d_objs d) X) = Loaded c2 (d_root d) /\
+    load_bytes rel3 (render_hybrid (d_objs d) H) = Loaded c3 (d_root d) /\
+    forall id, ctx_get c1 id = ctx_get c2 id /\ ctx_get c2 id = ctx_get c3 id.
+Proof.
+  intros Wd Wl Wx Wh.
+  destruct (load_bytes_classic rel1 d l Wd Wl) as (c1 & L1 & K1).
+  destruct (load_bytes_xrefstm rel2 d X Wd Wx) as (c2 & L2 & K2).
+  destruct (load_bytes_hybrid rel3 d H Wd Wh) as (c3 & L3 & K3).
+  exists c1, c2, c3. repeat split; try assumption; rewrite ?K1, ?K2, ?K3; reflexivity.
+Qed.
+
+Lemma ex_representations : wf_doc ex_doc /\ wf_layout ex_doc ex_layout /\ wf_xlayout ex_doc ex_xlayout /\ wf_hylayout ex_doc ex_hylayout.
+Proof. exact (conj ex_wf_doc (conj ex_wf_layout (conj ex_wf_xlayout ex_wf_hylayout))). Qed.
